@@ -99,9 +99,11 @@ class CSSMediaRule(cssrule.CSSRuleRules):
                             error=xml.dom.InvalidModificationErr)
 
         else:
-            # save if parse goes wrong
-            oldMedia = self._media
-            oldCssRules = self._cssRules
+            # everything is parsed into a scratch rule and a new media list,
+            # this rule is only touched when the complete text is ok
+            scratch = CSSMediaRule(mediaText=None,
+                                   parentStyleSheet=self.parentStyleSheet)
+            newMedia = None
 
             ok = True
 
@@ -111,10 +113,10 @@ class CSSMediaRule(cssrule.CSSRuleRules):
                                                  separateEnd=True)
             if '{' == self._tokenvalue(end)\
                or self._prods.STRING == self._type(end):
-                self.media = css_parser.stylesheets.MediaList(parentRule=self)
+                newMedia = css_parser.stylesheets.MediaList(parentRule=self)
                 # TODO: remove special case
-                self.media.mediaText = mediatokens
-                ok = ok and self.media.wellformed
+                newMedia.mediaText = mediatokens
+                ok = ok and newMedia.wellformed
             else:
                 ok = False
 
@@ -166,19 +168,19 @@ class CSSMediaRule(cssrule.CSSRuleRules):
                 new = {'wellformed': True}
 
                 def COMMENT(expected, seq, token, tokenizer=None):
-                    self.insertRule(css_parser.css.CSSComment(
+                    scratch.insertRule(css_parser.css.CSSComment(
                         [token],
-                        parentRule=self,
+                        parentRule=scratch,
                         parentStyleSheet=self.parentStyleSheet))
                     return expected
 
                 def ruleset(expected, seq, token, tokenizer):
                     rule = css_parser.css.CSSStyleRule(
-                            parentRule=self,
+                            parentRule=scratch,
                             parentStyleSheet=self.parentStyleSheet)
                     rule.cssText = self._tokensupto2(tokenizer, token)
                     if rule.wellformed:
-                        self.insertRule(rule)
+                        scratch.insertRule(rule)
                     return expected
 
                 def atrule(expected, seq, token, tokenizer):
@@ -198,24 +200,20 @@ class CSSMediaRule(cssrule.CSSRuleRules):
                                         error=xml.dom.HierarchyRequestErr)
                     elif atval in factories:
                         rule = factories[atval](
-                            parentRule=self,
+                            parentRule=scratch,
                             parentStyleSheet=self.parentStyleSheet)
                         rule.cssText = tokens
                         if rule.wellformed:
-                            self.insertRule(rule)
+                            scratch.insertRule(rule)
                     else:
                         rule = css_parser.css.CSSUnknownRule(
                                 tokens,
-                                parentRule=self,
+                                parentRule=scratch,
                                 parentStyleSheet=self.parentStyleSheet)
                         if rule.wellformed:
-                            self.insertRule(rule)
+                            scratch.insertRule(rule)
                     return expected
 
-                # save for possible reset
-                oldCssRules = self.cssRules
-
-                self.cssRules = css_parser.css.CSSRuleList()
                 seq = []  # not used really
 
                 tokenizer = iter(cssrulestokens)
@@ -236,11 +234,11 @@ class CSSMediaRule(cssrule.CSSRuleRules):
                 ok = ok and wellformed
 
             if ok:
+                # commit: the parsed rules are re-parented to this rule
+                self.media = newMedia
+                self.cssRules = scratch.cssRules
                 self.name = name
                 self._setSeq(nameseq)
-            else:
-                self._media = oldMedia
-                self._cssRules = oldCssRules
 
     cssText = property(_getCssText, _setCssText,
                        doc="(DOM) The parsable textual representation of this "
